@@ -29,8 +29,10 @@ Print Assumptions c02_where_parses.
 (* MAIN.  For every chain of Where / Not / Or calls of any length, over units of any form in the
    domain [calls_domx] — raw strings and named-argument strings that gorm parenthesises or that
    are single factors, maps, structs, single structured conditions, and groups db.Where(db...)
-   of such units nested to any depth (Not applied to flat units; groups and chains not starting
-   with Or) — the WHERE text gorm renders parses under SQL precedence, and for EVERY row
+   of such units nested to any depth; Not applied to flat units and to groups of two or more
+   members that contain an OR alternative (negated as a whole) or a member with a structured
+   negation (every member negated) — the remaining Not-over-group shape is the known finding;
+   groups and chains not starting with Or) — the WHERE text gorm renders parses under SQL precedence, and for EVERY row
    valuation its Kleene value equals the value of the specification: the units' meanings
    combined left to right with AND (Where, Not) and OR (Or) under SQL precedence, Not reading a
    multi-member map/struct as "every member false" and anything else as a whole.
